@@ -97,6 +97,7 @@ cdef class QueryScheduler:
 cdef class _ServiceBrowserBase(RecordUpdateListener):
 
     cdef public cython.set types
+    cdef public cython.dict _types_by_key
     cdef public object zc
     cdef DNSCache _cache
     cdef object _loop
@@ -112,6 +113,9 @@ cdef class _ServiceBrowserBase(RecordUpdateListener):
     cpdef void async_update_records(self, object zc, double now, cython.list records)
 
     cpdef cython.list _names_matching_types(self, object types)
+
+    @cython.locals(types_by_key=cython.dict)
+    cpdef cython.list _types_matching(self, object name)
 
     cpdef _fire_service_state_changed_event(self, cython.tuple event)
 
